@@ -25,6 +25,25 @@ NA = {
 PENDING = "check not built yet in this round (planned: DESIGN.md section 5)"
 
 CHECKS = {
+    "C06": dict(
+        engine="E2 dask-in-memory (+E3 parquet store for the parquet provenances)",
+        category="exploration",
+        text="Seeded histories of provenance steps (from_pandas with even/explicit/empty partitions, row "
+             "filter, set_geometry, column selection, persist, build_sindex, pack_partitions, parquet round "
+             "trip through to_parquet or pack_partitions_to_parquet re-read with/without geometry= and "
+             "bounds=) with 3 queries after every step (cx, series cx, cx_partitions, bounds, total_bounds, "
+             "area, length, intersects_bounds, sjoin inner/left), each graph executed by the simulated "
+             "executor (1..16 workers, random/PCT/in-order/stalled). Oracle: the same operation on a fresh "
+             "pandas frame rebuilt from the partitions' row records with the same active geometry; the "
+             "partitions themselves are checked against the model's expected row multiset after every "
+             "step. Sampling, not proof.",
+        design_ref="DESIGN.md 5/C06",
+        note="pandas-level cx/sjoin/bounds are the oracle the property names (their own correctness is "
+             "C01-C05/C13, not claimed); known finding F06 (filter on a still-lazy shuffle) reported as "
+             "KNOWN-FINDING; which partitions bounds= keeps is left to C12",
+        technique="deterministic simulation of the Dask executor + refinement against the single-copy "
+                  "pandas model over generated provenance histories",
+    ),
     "C09": dict(
         engine="E2 dask-in-memory",
         category="exploration",
@@ -118,7 +137,7 @@ def main():
              "serves_properties": ["C10", "C19"],
              "kind_free_text": "real pack_partitions_to_parquet on SimFS under the simulated Dask executor"},
             {"name": "E2 dask-in-memory", "path": "dsim/e2.py",
-             "serves_properties": ["C09"],
+             "serves_properties": ["C06", "C09"],
              "kind_free_text": "Dask collections executed task by task by the simulated executor, "
                                "compared with the pandas frame they represent"},
         ],
